@@ -321,8 +321,18 @@ def created_predicates_agree(ctx, rc):
                 if isinstance(g, Func) and g.cls == C and \
                         not g.is_public and g not in fs:
                     fs.append(g)
-        used = {n.attr for f0 in fs for n in ast.walk(f0.node)
-                if isinstance(n, ast.Attribute) and n.attr in flags}
+        used = set()
+        for f0 in fs:
+            for n in ast.walk(f0.node):
+                if isinstance(n, ast.Attribute) and n.attr in flags:
+                    # polarity: under how many ``not`` the flag is read
+                    neg = 0
+                    p = prog.parent(n)
+                    while isinstance(p, ast.UnaryOp) and isinstance(
+                            p.op, ast.Not):
+                        neg += 1
+                        p = prog.parent(p)
+                    used.add((n.attr, neg % 2 == 1))
         views[m.qualname] = used
     if len(views) < 3:
         raise AnalysisError('only %d created-file views on %s' % (
